@@ -137,6 +137,14 @@ def run_property(prop, tier, seed, replay):
                 for t in report["trace_files"]:
                     f.write(open(t).read())
             xc_ok, xc_n, xc_log = coq_crosscheck(allt, work, sample, seed)
+            if xc_ok and report.get("conc_trace_files"):
+                # the concurrent windows too (Obs.obs_run2: Model/Conc.v and Model/PolConc.v inside Coq)
+                callt = os.path.join(work, "conc_all.trace")
+                with open(callt, "w") as f:
+                    for t in report["conc_trace_files"]:
+                        f.write(open(t).read())
+                ok2, n2, log2 = coq_crosscheck(callt, os.path.join(work, "xcc"), 16 if tier == "quick" else 256, seed)
+                xc_ok, xc_n, xc_log = ok2, xc_n + n2, log2
             if xc_ok:
                 discharged += 1
             else:
